@@ -252,6 +252,19 @@ def run_history(ctx, seed):
                     world.settle(advance=False)
                     world.advance_to(world.now + 10.5)
                     saved_preempt, pw.ch.p_preempt = pw.ch.p_preempt, rng.choice([0.3, 0.5, 0.5])
+                    if rng.random() < 0.7:
+                        # another thread keeps taking the connections' locks and holds each for a while (what a heartbeat or wait_for_responses does
+                        # around send_msg): whoever needs that lock meanwhile waits
+                        hr = random.Random(seed + 17)
+                        conns_now = list(p._connections)
+
+                        def holder():
+                            for _ in range(hr.randint(2, 6)):
+                                for c in conns_now:
+                                    with c.lock:
+                                        for _ in range(hr.randint(2, 6)):
+                                            world.maybe_yield('hold')
+                        world.spawn(holder, name='lock-holder')
                     for _ in range(rng.randint(1, 3)):
                         u = new_uid()
                         kinds[u] = 'rows'
@@ -768,4 +781,4 @@ def run(ctx):
     ctx.floor_distinct = 60 if ctx.quick else 1200
     ctx.floor_counters = {"histories": 60, "histories_v2_pool": 10, "invariant_evaluations_under_lock": 3000, "pool_connections_in_closure_census": 80,
                           "quiescent_connections_checked_for_conservation": 20, "direct_borrows": 30, "borrows_attempted_after_shutdown": 10,
-                          "replacement_connections": 5}
+                          "replacement_connections": 5, "connections_trashed_while_idle_above_core": 20, "shutdowns_overlapping_a_trash_move": 3}
